@@ -1836,7 +1836,9 @@ mod crypto {
     impl Write for CryptoWriter<'_> {
         fn write(&mut self, buf: &[u8]) -> Result<usize, Error> {
             if self.failed {
-                panic!("Call to failed CryptoWriter");
+                // Can be reached without any misuse: e.g. the compression layer writes
+                // its trailer while being dropped, after a flush has failed.
+                return Err(Error::new(ErrorKind::Other, "Call to failed CryptoWriter"));
             }
             self.buf.extend(buf);
             if self.buf.len() > CRYPTO_BUFSIZE {
